@@ -47,6 +47,7 @@ def data_card(rnd, ncells, prefix, pre):
             v = RatFn.var('%s%d' % (prefix, k))
             k += 1
             pre.append(v.z3_cmp('>='))
+            pre.append((v - RatFn.const(10)).z3_cmp('<='))
             toks.append(v)
             refl.append(v)
         elif form == 'rep':
@@ -58,6 +59,7 @@ def data_card(rnd, ncells, prefix, pre):
                 f = RatFn.var('%s%d' % (prefix, k))
                 k += 1
                 pre.append(f.z3_cmp('>='))
+                pre.append((f - RatFn.const(10)).z3_cmp('<='))
                 toks.append(_Suffix(f, 'm'))
             else:
                 f = Fr(rnd.choice([0, 2, 3]))
@@ -70,6 +72,7 @@ def data_card(rnd, ncells, prefix, pre):
                 up = RatFn.var('%s%d' % (prefix, k))
                 k += 1
                 pre.append(up.z3_cmp('>='))
+                pre.append((up - RatFn.const(10)).z3_cmp('<='))
             else:
                 up = Fr(rnd.choice([0, 4]))
             toks.append('%di' % nint)
@@ -117,6 +120,7 @@ def make(task):
             v = RatFn.var('i%d' % k)
             k += 1
             pre.append(v.z3_cmp('>='))
+            pre.append((v - RatFn.const(10)).z3_cmp('<='))
             return v
         return Fr(rnd.choice([0, 0, 1, 3]))
     if mode in ('card', 'mix'):
@@ -187,7 +191,7 @@ def run(tier):
     rep.explanation = ('Slab decks of 2-4 cells whose importances come from cell cards, IMP data cards (with nR/nM/nI shorthand) or both; '
                        'every importance is a symbolic real >= 0 or a literal.  The real pipeline is executed symbolically; per path z3 decides '
                        'that the skipped list and the written volumes match the reference importance rule.')
-    rep.bounds = {'decks': len(tasks), 'cells': '2-4', 'sources': modes, 'symbolic': 'importance values, shorthand multipliers and interpolation end points',
+    rep.bounds = {'decks': len(tasks), 'cells': '2-4', 'sources': modes, 'symbolic': 'importance values, shorthand multipliers and interpolation end points, each a real in [0, 10]',
                   'outside': ['negative importances', 'ILOG interpolation', 'more than two particle types', 'universe cells (C05)']}
     rep.assumptions = ['reference rule: cell-card IMP keywords (max over particle types) else IMP data cards by rank (max over cards)']
     rep.cov['rule'] = 'program = one generated deck; case = (deck, path, cell); distinct = distinct (deck, path condition)'
